@@ -126,6 +126,8 @@ struct Property {
   int tape_scale;                          // multiplies rapidcheck size for the tape
   int timeout_s;                           // per case alarm
   bool leakcheck;                          // run LSan after the case (C18)
+  bool keep_going = false;                 // record each distinct failure signature and continue (no shrinking)
+  std::string (*crash_context)(const Case &) = nullptr;   // appended to sanitizer/crash signatures
 };
 void register_property(const Property &p);
 const Property *find_property(const std::string &id, const std::string &variant);
